@@ -209,14 +209,33 @@ TEMPLATES = [
     "define datapoint ruleset dpr (variable Me_1) is Me_1 > {n} end datapoint ruleset; DS_r <- check_datapoint(DS_1, dpr all_measures);",
     "DS_r <- DS_1[calc Me_2 := Me_1 > {n} or not (Me_1 <= {n2}) xor true];", "DS_r <- DS_1[calc Me_2 := abs(-{n}) + ceil({n2}) + floor(-{n2})];",
     "DS_r <- check(DS_1 > {n} errorcode {s} errorlevel 2 imbalance DS_1 - {n2} invalid);",
+    # falsy / unusual error codes and levels
+    "define hierarchical ruleset hr (variable rule Id_2) is A = B + C errorcode {e} errorlevel {e2}; D >= A - B errorlevel {e} end hierarchical ruleset; DS_r <- check_hierarchy(DS_1, hr rule Id_2 all);",
+    "define datapoint ruleset dpr (variable Me_1) is r1: Me_1 > {n} errorcode {e} errorlevel {e2}; r2: Me_1 < {n2} errorlevel {e} end datapoint ruleset; DS_r <- check_datapoint(DS_1, dpr all);",
+    "DS_r <- check(DS_1 > {n} errorcode {e} errorlevel {e2});", "DS_r <- check(DS_1 > {n} errorlevel {e} imbalance DS_1 - {n2} all);",
+    # analytic windows: every bound form, numeric and scalar-variable offsets
+    "sc_n := 1; DS_r <- sum(DS_1 over (partition by Id_1 order by Id_2 data points between {wa} and {wb}));",
+    "sc_n := 2; DS_r <- DS_1[calc Me_2 := avg(Me_1 over (order by Id_1, Id_2 data points between {wa} and {wb}))];",
+    "DS_r <- max(DS_1 over (partition by Id_1 order by Id_2 desc range between {ra} and {rb}));",
+    "DS_r <- DS_1[calc Me_2 := lag(Me_1, {k}, {n} over (partition by Id_1 order by Id_2)), Me_3 := rank(over (partition by Id_1 order by Me_1 desc))];",
+    "DS_r <- first_value(DS_1 over (partition by Id_1 order by Id_2 asc));", "DS_r <- ratio_to_report(DS_1 over (partition by Id_1));",
 ]
+ERRS = ["0", "0.0", "1", "5", '""', '"E"', '"0"', "-1"]
+WLO = ["unbounded preceding", "2 preceding", "1 preceding", "sc_n preceding", "current data point", "1 following", "sc_n following"]
+WHI = ["2 preceding", "sc_n preceding", "current data point", "1 following", "3 following", "sc_n following", "unbounded following"]
+RLO = ["unbounded preceding", "2 preceding", "current data point", "1 following"]
+RHI = ["1 preceding", "current data point", "2 following", "unbounded following"]
 
 
 def gen_script(rng):
     parts = []
     for _ in range(rng.randint(1, 3)):
         t = rng.choice(TEMPLATES)
-        s = t.format(n=rng.choice(NUMS), n2=rng.choice(NUMS), l=rng.choice(LITS), s=rng.choice(STRS), s2=rng.choice(STRS))
+        wa = rng.randrange(len(WLO))
+        wb = rng.choice([j for j in range(len(WHI)) if j >= max(0, wa - 1)])   # never an upper bound before the lower one
+        ra = rng.randrange(len(RLO))
+        s = t.format(n=rng.choice(NUMS), n2=rng.choice(NUMS), l=rng.choice(LITS), s=rng.choice(STRS), s2=rng.choice(STRS),
+                     e=rng.choice(ERRS), e2=rng.choice(ERRS), wa=WLO[wa], wb=WHI[wb], ra=RLO[ra], rb=rng.choice(RHI[ra:]), k=rng.choice([1, 2]))
         if rng.random() < 0.5:
             c = rng.choice(COMMENTS)
             where = rng.random()
@@ -236,7 +255,7 @@ def gen_script(rng):
     for i, s in enumerate(parts):
         out.append(s.replace("DS_r <-", f"DS_r{i} <-").replace("sc_r <-", f"sc_r{i} <-").replace("operator f ", f"operator f{i} ").replace(" f(", f" f{i}(")
                    .replace("ruleset dpr ", f"ruleset dpr{i} ").replace(", dpr)", f", dpr{i})").replace(", dpr ", f", dpr{i} ")
-                   .replace("ruleset hr ", f"ruleset hr{i} ").replace(", hr ", f", hr{i} "))
+                   .replace("ruleset hr ", f"ruleset hr{i} ").replace(", hr ", f", hr{i} ").replace("sc_n", f"sc_n{i}"))
     return "\n".join(out)
 
 
